@@ -22,6 +22,11 @@ def build(case):
     from fixedint import UInt16
     from architecture_simulator.simulation.toy_simulation import ToySimulation
     sim = ToySimulation()
+    if case.get("reuse"):
+        # a USED simulation object: it assembled and executed another program before this one is loaded
+        sim.load_program("INC\nDEC\nNOT\nINC\nZRO\nDEC\nINC\nNOT\n")
+        for _ in range(int(case["reuse"])):
+            sim.step()
     n = case["len"]
     if case.get("via_text"):
         text = first_line(case["first"]) + "\n" + "NOP\n" * (n - 1)
